@@ -17,7 +17,7 @@ import (
 )
 
 var Spec = engine.Spec{
-	ID: "C02", Run: Run, MapOrders: true, QuickBud: 6 * time.Minute, ThorBud: 30 * time.Minute,
+	ID: "C02", Run: Run, MapOrders: true, QuickBud: 6 * time.Minute, ThorBud: 60 * time.Minute,
 	Technique: "explicit enumeration of every labelled containment tree with a fixed root and <=4 (thorough 5) further nodes x both edge encodings (one edge object per parent / per child) x every permutation of the stored edge list x CycloneDX 1.4 and 1.5, complete enum sweeps per spec version, and every set of <=2 (thorough 3) attribute deviations, through the real writer and reader against a parent-function model and a per-attribute comparison; second pass must change nothing",
 	Rule:      "case = (tree as parent function, encoding, edge-list permutation, spec version) or one enum value or one attribute-deviation set; distinct state = canonical document key + version",
 	Assume: []string{
